@@ -1278,9 +1278,14 @@ class _iterinfo(object):
                     for wday, n in rr._bynweekday:
                         if n < 0:
                             i = last+(n+1)*7
+                            if i < first:
+                                # The period has no such week at all
+                                continue
                             i -= (self.wdaymask[i]-wday) % 7
                         else:
                             i = first+(n-1)*7
+                            if i > last:
+                                continue
                             i += (7-self.wdaymask[i]+wday) % 7
                         if first <= i <= last:
                             self.nwdaymask[i] = 1
